@@ -39,7 +39,8 @@ static double num(const std::string& s) { std::string l = s; for (auto& ch : l) 
 
 static std::string g_path;
 struct ReadOut { bool threw = false; bool right_type = false; std::string what; global_simulation_parameters sp; std::vector<cell_type_param_ptr> types; };
-static ReadOut read_doc(const std::string& xml) { ReadOut r; { std::ofstream f(g_path); f << xml; }
+static vf::Result* g_R = nullptr;
+static ReadOut read_doc(const std::string& xml) { ReadOut r; if (g_R) g_R->distinct_case(xml); { std::ofstream f(g_path); f << xml; }
     try { parameter_reader rd(g_path); r.sp = rd.read_numerical_parameters(); r.types = rd.read_biomechanical_parameters(); }
     catch (parameter_reader_exception& e) { r.threw = true; r.right_type = true; r.what = e.what(); } catch (std::exception& e) { r.threw = true; r.what = e.what(); }
     return r; }
@@ -93,6 +94,7 @@ static void set_tag(Tags& t, const std::string& k, const std::string& v) { for (
 static void del_tag(Tags& t, const std::string& k) { for (size_t i = 0; i < t.size(); i++) if (t[i].first == k) { t.erase(t.begin() + i); return; } }
 
 static void explore(Result& R) {
+    g_R = &R;
     std::filesystem::create_directories(sw::scratch_root()); g_path = sw::scratch_root() + "/params.xml"; long cases = 0, rejected = 0;
     // 1. values, order, INF
     for (int nc = 1; nc <= 3; nc++) for (int nf = 1; nf <= 3; nf++) for (int notation = 0; notation < 3; notation++) for (int inf = -1; inf < 3; inf++) for (int order = 0; order < 6; order++) {
@@ -117,7 +119,7 @@ static void explore(Result& R) {
             R.violation(clause_of(e) + "|" + v.tag, e, "mode=sign\ntag=" + v.tag + "\nvalue=" + v.value + "\n"); } }
     sw::cleanup_scratch();
     R["evaluations"] = cases; R["states"] = cases; R["transitions"] = cases; R["distinct_nontrivial"] = cases; R["traces_validated_against_impl"] = cases; R["files_rejected_as_expected"] = rejected;
-    R.strings["rule"] = "a case = one generated parameter file: sentinel files (every tag a distinct exactly representable value; 1-3 cell types x 1-3 face types x plain/scientific/upper-case-E notation x INF spellings x identity/reversed/rotated tag order) compared field by field with strtod of the written text and with a solver built from them; every single omitted tag / section and every single value violating a constraint stated by the reader's own diagnostics must raise parameter_reader_exception";
+    R.strings["rule"] = "distinct_nontrivial = number of DISTINCT parameter file texts handed to the real reader (hashed); a case = one generated parameter file: sentinel files (every tag a distinct exactly representable value; 1-3 cell types x 1-3 face types x plain/scientific/upper-case-E notation x INF spellings x identity/reversed/rotated tag order) compared field by field with strtod of the written text and with a solver built from them; every single omitted tag / section and every single value violating a constraint stated by the reader's own diagnostics must raise parameter_reader_exception";
     R.assumptions = {"constraint table is conservative: a value is required to be rejected only where the reader's own diagnostic text states the constraint (negative for damping/tensions/strengths/moduli/ids and for surface_coupling_max_curvature, non-positive for duration, time step, sampling period, edge length, cut-offs, isoperimetric ratio, sampling period below the time step)", "empty / non-numeric elements are C17's business"};
 }
 static int replay(const Replay& rp, Result& R) { printf("C18 replay: re-run the check (cases are generated deterministically from the listed parameters): mode=%s\n", rp.get("mode").c_str()); Result R2; R2.args = R.args; R2.property = "C18"; explore(R2); for (auto& v : R2.violations) if (v.key == rp.get("key")) { R.violation(v.key, v.what, ""); return 1; } return 0; }
